@@ -11,7 +11,7 @@ VARIABLES l, viol, cnt
 ovars == <<l, viol, cnt>>
 
 Names == {"C01_NeverOverdrawn", "C01_RejectedWhole", "C03_NoNegative", "C03_PerDestination", "C03_PerSource",
-          "C03_Amount", "C08_SameAsSource", "C08_SameMetadata", "C08_RefusedNotRun", "C08_BigValues", "C12_NoPanicNoHang", "C12_DefinedClass", "C12_Repeatable"}
+          "C03_Amount", "C03_SameDecision", "C08_SameAsSource", "C08_SameMetadata", "C08_RefusedNotRun", "C08_BigValues", "C12_NoPanicNoHang", "C12_DefinedClass", "C12_Repeatable"}
 
 Defined == {"ok", "no-postings", "compile-error", "insufficient", "failed", "invalid-script", "negative-amount",
             "missing-metadata", "metadata-override", "invalid-vars", "resolve-error"}
@@ -36,6 +36,8 @@ FailingAgainst(exp, bal, sends, real) ==
         \cup T("C03_PerDestination", both => \A a \in all : ToDst(real.posts, a) = ToDst(exp.posts, a))
         \cup T("C03_PerSource", both => \A a \in all : FromSrc(real.posts, a) = FromSrc(exp.posts, a))
         \cup T("C03_Amount", (Ran(exp.class) /\ ~Crashed(real.class)) => (Ran(real.class) /\ Moved(real.posts) = Moved(exp.posts)))
+        \* a send the source refuses (negative amount, uncovered, ill-formed) is refused; one it accepts is accepted
+        \cup T("C03_SameDecision", ~Crashed(real.class) => (Ran(real.class) = Ran(exp.class)))
         \cup T("C08_SameAsSource", ~Crashed(real.class) => (real.class = exp.class /\ real.posts = exp.posts))
         \cup T("C08_SameMetadata", ("txmeta" \in DOMAIN real /\ ~Crashed(real.class) /\ real.class = exp.class)
                                         => (real.txmeta = exp.txmeta /\ real.acctmeta = exp.acctmeta))
